@@ -3,13 +3,16 @@ package props
 import (
 	"context"
 	"fmt"
+	"regexp"
 	"sort"
+	"strings"
 	"testing"
 
 	"go.opentelemetry.io/collector/pdata/pcommon"
 	"pgregory.net/rapid"
 
 	"github.com/tdakkota/docker-logql/internal/dockerlog"
+	"github.com/tdakkota/docker-logql/internal/logql"
 	"github.com/tdakkota/docker-logql/internal/logql/logqlengine"
 	"github.com/tdakkota/docker-logql/internal/logstorage"
 	"github.com/tdakkota/docker-logql/verifharness/dl"
@@ -24,6 +27,9 @@ type C04Case struct {
 	// n <= 4 all n! orders are enumerated.
 	Perms [][]int `json:"perms,omitempty"`
 	Frag  []int   `json:"frag,omitempty"`
+	// History, when set, is a sequence of selections (container indexes) queried one after the
+	// other on ONE Querier before the checked full selection; every call is checked.
+	History [][]int `json:"history,omitempty"`
 }
 
 type c04Out struct {
@@ -83,8 +89,63 @@ func c04Run(c C04Case, order []int) ([]c04Out, error, fakedocker.Report) {
 	return out, err, d.Done()
 }
 
+// c04History runs a sequence of SelectLogs calls with different selectors on one Querier and
+// checks every merged stream against the selection it was asked for.
+func c04History(c C04Case) *evid.Violation {
+	d := &fakedocker.Daemon{}
+	for i, lines := range c.Ctrs {
+		ctr := dl.Ctr(fmt.Sprintf("id%d", i), fmt.Sprintf("c%d", i), nil, lines)
+		ctr.Frag = c.Frag
+		d.Containers = append(d.Containers, ctr)
+	}
+	q, _ := dockerlog.NewQuerier(d)
+	all := identity(len(c.Ctrs))
+	calls := append(append([][]int{}, c.History...), all)
+	for ci, sel := range calls {
+		want := map[string]int{}
+		names := make([]string, 0, len(sel))
+		for _, idx := range sel {
+			names = append(names, fmt.Sprintf("c%d", idx))
+			for _, l := range c.Ctrs[idx] {
+				want[fmt.Sprintf("id%d|%d|%s", idx, l.TS, l.Msg)]++
+			}
+		}
+		re := "^(?:" + strings.Join(names, "|") + ")$"
+		m := logql.LabelMatcher{Label: "container", Op: logql.OpRe, Value: strings.Join(names, "|"), Re: regexp.MustCompile(re)}
+		it, err := q.SelectLogs(context.Background(), pcommon.Timestamp(1), pcommon.Timestamp(1<<62), logqlengine.SelectLogsParams{Labels: []logql.LabelMatcher{m}})
+		if err != nil {
+			return evid.Viol("C04/history-error", "call %d (containers %v): %v", ci, sel, err)
+		}
+		got := map[string]int{}
+		var rec logstorage.Record
+		var prev int64
+		for it.Next(&rec) {
+			id, _ := rec.ResourceAttrs.AsMap().Get("container_id")
+			got[fmt.Sprintf("%s|%d|%s", id.AsString(), int64(rec.Timestamp), rec.Body)]++
+			_ = prev
+		}
+		err = it.Err()
+		_ = it.Close()
+		if err != nil {
+			return evid.Viol("C04/history-error", "call %d (containers %v): %v", ci, sel, err)
+		}
+		if fmt.Sprint(got) != fmt.Sprint(want) {
+			return evid.Viol("C04/history-conservation", "call %d of %v on one Querier selected containers %v: merged stream %v, want %v", ci, calls, sel, got, want)
+		}
+	}
+	return nil
+}
+
 func c04Check(c C04Case) (r evid.Result) {
 	n := len(c.Ctrs)
+	if len(c.History) > 0 {
+		r.Class(true, "history")
+		if v := c04History(c); v != nil {
+			r.Violation = v
+			r.NonTrivial = true
+			return r
+		}
+	}
 	var orders [][]int
 	if n <= 4 {
 		orders = permutations(n)
@@ -233,6 +294,21 @@ func c04Gen(t *rapid.T) C04Case {
 		}
 	}
 	c.Frag = genFrag(t)
+	if n >= 2 && rapid.IntRange(0, 2).Draw(t, "history") == 0 {
+		calls := rapid.IntRange(1, 3).Draw(t, "history-calls")
+		for i := 0; i < calls; i++ {
+			var sel []int
+			for idx := 0; idx < n; idx++ {
+				if rapid.Bool().Draw(t, "history-pick") {
+					sel = append(sel, idx)
+				}
+			}
+			if len(sel) == 0 {
+				sel = []int{rapid.IntRange(0, n-1).Draw(t, "history-one")}
+			}
+			c.History = append(c.History, sel)
+		}
+	}
 	return c
 }
 
